@@ -108,9 +108,33 @@ class EditRunner(G.Runner):
         except Outside:
             self.outside = True
 
+    def _via_app(self):
+        """every other call goes through the thin wrappers of `Ombott` (`add_route`, `on_route`,
+        `remove_route_hook`; `remove_route` has its own op) instead of the `RadiRouter` method"""
+        return len(self.ops) % 2 == 1
+
     def add(self, rule, methods, name=None, overwrite=False):
         idx = len(self.ops)
-        ans = super().add(rule, methods, name, overwrite)
+        if self._via_app():
+            # as `G.Runner.add`, through `Ombott.add_route`
+            bad = self._scan_filters(rule) if rule else []
+
+            def handler(**kw):
+                meth = self.app.request.environ.get('ombott.route')
+                self.calls.append((idx, getattr(meth, 'name', None), kw))
+                return 'h%d' % idx
+            try:
+                route = self.app.add_route(rule, methods, handler, name, overwrite=overwrite)
+                self.routes[idx] = route
+                ans = 'ok:' + hs(route.pattern)
+            except Exception as e:
+                ans = 'err:' + G.err_name(e)
+            cerr = ';'.join('%s=%s' % (hs(k), v) for k, v in bad) if bad else '~'
+            self.ops.append('A|%s|%s|%s|%d|%s' % (hs(rule), hsl([methods] if isinstance(methods, str) else methods),
+                                                  '~' if name is None else hs(name), 1 if overwrite else 0, cerr))
+            self.answers.append(ans)
+        else:
+            ans = super().add(rule, methods, name, overwrite)
         out = 'ok' if ans.startswith('ok') else ans[4:]
         self._spec(lambda sp: sp.add(rule, methods, name, overwrite, idx, out))
         return ans
@@ -175,7 +199,11 @@ class EditRunner(G.Runner):
         cerr = self._cerr(rule)
         hook = self.make_hook(idx, partial)
         try:
-            pat = core.with_timeout(lambda: self.router.add_hook(rule, hook, 1 if partial else 0))
+            if not partial and self._via_app():
+                core.with_timeout(lambda: self.app.on_route(rule, hook))       # returns nothing
+                pat = self.router.to_pattern(rule)
+            else:
+                pat = core.with_timeout(lambda: self.router.add_hook(rule, hook, 1 if partial else 0))
             self.hook_pattern[idx] = pat
             ans = 'ok:' + hs(pat)
         except core.Hang:
@@ -187,7 +215,8 @@ class EditRunner(G.Runner):
 
     def remove_hook(self, rule):
         cerr = self._cerr(rule)
-        ans = self._emit('XH|%s|%s' % (hs(rule), cerr), self._outcome(lambda: self.router.remove_hook(rule)))
+        rm = self.app.remove_route_hook if self._via_app() else self.router.remove_hook
+        ans = self._emit('XH|%s|%s' % (hs(rule), cerr), self._outcome(lambda: rm(rule)))
         self._spec(lambda sp: sp.remove_hook(rule, ans if ans == 'ok' else ans[4:]))
         return ans
 
